@@ -442,7 +442,28 @@ def q6(model: Model, rep: Report):
     fall = [p for p in ps if p.exit == "return" and not any(e.kind == "loopexit" for e in p.events)]
     ok = len(fall) == 1 and fall[0].value == TRUE
     why = ""
-    if ok:
+    rets = [p for p in ps if p.exit == "return"]
+    if len(rets) == 1 and rets[0].value is not None and rets[0].value[0] == "quant" and not any(e.kind == "loop" for e in rets[0].events):
+        # the same test written as one quantifier over the pairs
+        from ..extreme import fuse_comprehensions
+        from .common import devar
+        qv = rets[0].value
+        comp = devar(fuse_comprehensions(devar(qv[2])))
+        ok = True
+        if qv[1] != "all":
+            ok, why = False, "the step is accepted when SOME pair is allowed"
+        elif comp[0] != "comp" or len(comp[3]) != 2 or comp[3][0][1] or comp[3][1][1]:
+            ok, why = False, f"not every ordered pair is tested ({show(comp)[:120]})"
+        elif comp[3][0][0] != ops or comp[3][1][0] != ops:
+            ok, why = False, f"pairs range over {show(comp[3][0][0])} x {show(comp[3][1][0])} instead of all operations of the step twice"
+        else:
+            c = comp[2]
+            bs = subterms(c, lambda y: y[0] == "bound")
+            allowed = c[2] if c[0] == "in" and c[1][0] == "bound" else None
+            tgts = [b for b in bs if c[0] == "in" and b != c[1]]
+            if allowed is None or "get_allowed_operations" not in show(allowed) or len(tgts) != 1 or not subterms(allowed, lambda y: y == tgts[0]):
+                ok, why = False, f"pair test is {show(c)[:160]}"
+    elif ok:
         L = loop_of(fall[0])
         rej = _rejections(L, []) if L is not None else []
         if L is None or len(rej) != 1:
@@ -628,9 +649,10 @@ def q7(model: Model, rep: Report):
     pq, pcon = (sym(n) for n in [n for n in po.param_names if n != po.self_name][:2])
     okp = len(pps) == 1
     if okp:
+        from .common import star_segments
         segs = contents(pps[0], pps[0].value) if pps[0].value is not None and pps[0].value[0] == "var" else ([devar(pps[0].value)] if pps[0].value is not None else None)
         flat = []
-        for sg in segs or []:
+        for sg in [y for x in segs or [] for y in star_segments(devar(x))]:
             sg = devar(sg)
             flat.extend([("item", x) for x in sg[1]] if sg[0] == "list" else [("comp", sg)])
         want_items = {("call", ("fn", "Operation.type_idle"), (), (("qubit_id", pq),)), ("call", ("fn", "Operation.type_park"), (), (("qubit_id", pq),))}
